@@ -328,7 +328,8 @@ class QGen:
     def query(self):
         r = self.r
         steps = []
-        form = r.choice(["evt_single", "evt_tuple", "evt_dict", "per_object", "per_object_tuple", "two_step", "two_step_tuple"])
+        form = r.choice(["evt_single", "evt_tuple", "evt_dict", "per_object", "per_object_tuple", "two_step", "two_step_tuple",
+                         "flat_rows", "pair_rows"])
         depth = r.choice([1, 2, self.max_depth])
         self.shape.append(form)
         if r.random() < 0.25:
@@ -371,6 +372,36 @@ class QGen:
             else:
                 cols = [self.obj_num(v, et, depth - 1)[0] for _ in range(r.choice([2, 3]))]
                 steps.append(["Select", f"lambda {v}: ({', '.join(cols)})"])
+        elif form == "flat_rows":
+            # one row per number: SelectMany over a per-object selection, then value-level Where / Select
+            s_, et = self.seq_of_obj("e", depth)
+            v = self.var("j")
+            x, kind = self.obj_num(v, et, depth - 1)
+            steps.append(["SelectMany", f"lambda e: {s_}.Select(lambda {v}: {x})"])
+            self.uncond = False
+            w = self.var("v")
+            if r.random() < 0.4:
+                steps.append(["Where", f"lambda {w}: {w} > {r.choice(FLOATS)}"])
+                w = self.var("v")
+                self.shape.append("val_where")
+            steps.append(["Select", f"lambda {w}: {w} * 2" if r.random() < 0.5 else f"lambda {w}: ({w}, {w} + 1.0)"])
+        elif form == "pair_rows":
+            # one row per (object, sub-element): two SelectMany steps in a row
+            s_, et = self.seq_of_obj("e", depth)
+            steps.append(["SelectMany", f"lambda e: {s_}"])
+            self.uncond = False
+            v = self.var("o")
+            if r.random() < 0.5:
+                self.declare(et, "subs")
+                steps.append(["SelectMany", f"lambda {v}: {v}.subs()"])
+                w = self.var("sub")
+                steps.append(["Select", f"lambda {w}: {self.obj_num(w, et, 1)[0]}"])
+            else:
+                m = r.choice(["cvals", "ivals"])
+                self.declare(et, m)
+                steps.append(["SelectMany", f"lambda {v}: {v}.{m}()"])
+                w = self.var("c")
+                steps.append(["Select", f"lambda {w}: {w} + 1"])
         elif form == "two_step":
             s, et = self.seq_of_obj("e", depth)
             steps.append(["Select", f"lambda e: {s}"])
